@@ -130,7 +130,7 @@ def run_case(case):
         W = int(rng.integers(2, 4))
     T = int(rng.integers(1, 6))
     K = int(rng.choice([2, 3, 5, 9, 10, 20]))
-    n = int(rng.choice([K + 3, 40, 120]))
+    n = gen.pick_n(rng, [K + 3, 40, 120], hi=260)
     spec = dict(name=name, precision=prec)
     if name == 'mia':
         spec['bin_edges'] = np.linspace(-40, 40, int(rng.choice([2, 5, 16])) + 1).tolist()
